@@ -8,6 +8,8 @@ CFG = {
          "n": {"quick": 6000, "thorough": 200000}},
         {"mod": "extras", "component": "punchconn", "driver": "punchconn", "reset_re": "^(reset|conc)",
          "n": {"quick": 4000, "thorough": 100000}},
+        {"mod": "extras", "component": "punchsrv", "driver": "punchsrv", "reset_re": "^sreset",
+         "n": {"quick": 2000, "thorough": 40000}},
     ],
     "rule": "punchcodec: the real EncodePunchPacket under a seeded crypto/rand (padding and salt recorded and passed to the model), "
             "DecodePunchPacket on reference-encoded packets that are valid / truncated at and inside the window / over-long / "
@@ -22,7 +24,13 @@ CFG = {
             "responses, truncated messages, other transactions' responses) was read, the fake server staying silent / answering "
             "with a binding success / answering another transaction / answering with an error; `conc`: 1..3 goroutines add/remove volatile attempts and "
             "re-add stable ones while the reader cycles through the packets. distinct = distinct op line; non-trivial = a packet was "
-            "produced/accepted/returned, an attempt was registered/removed, or events were drained",
+            "produced/accepted/returned, an attempt was registered/removed, or events were drained. "
+            "punchsrv: the real ServerPuncher on a real PunchPacketConn over a channel-fed fake conn with a pump reader: histories of "
+            "Respond calls that stay in progress / run into a 10-30 ms deadline / are cancelled / re-use the id of a live attempt "
+            "(same or other metadata) or of a finished one / race for one id / have refused arguments, tickers of 4-5 ms, and packets "
+            "(hello/ack of attempts in progress, their mutations, packets of finished and foreign attempts, STUN, QUIC-like) from "
+            "usable and unusable sources; after every op the harness waits for quiescence and compares returns, acks and hello "
+            "bursts, the conn's registered attempts (read through an in-package shim), the puncher's routed ids and pass-through",
     "trusted_base": [
         "pion/stun IsMessage / Decode / XORMappedAddress.GetFrom / MappedAddress.GetFrom are an oracle: the harness calls them "
         "directly on every packet and passes the five verdicts to the model; theorems quantify over all verdicts",
@@ -31,6 +39,9 @@ CFG = {
         "ReadFrom returns, how many packets it consumed, both event channels' contents and drops) and by 12 regenerated constants",
         "atomicity of the modelled steps (AddPunchAttempt / RemovePunchAttempt lock regions, the RLock scan of decodePunchPacket; "
         "a single reader goroutine): supported by the `conc` ops (under -race in the thorough tier), not proved",
+        "ServerPuncher: punch_engine.candidatePunchAddrs (family filter, de-duplication, symmetric-NAT expansion, sorting) is not "
+        "modelled — the candidate list is an input; tickers, deadlines and cancellations are environment labels; each lock region / "
+        "channel operation / conn call of Respond, addAttempt, removeAttempt and dispatch is one atomic step (race-tested, not proved)",
         "SHA-256 as a PRF for the cross-key clause: `decode_other_key` reduces acceptance under another key to a 200-bit "
         "coincidence between two digests (proved); that this does not happen is assumed",
     ],
@@ -51,8 +62,12 @@ MANIFEST = {
             "or (usable source and) decodes under a currently registered attempt, and otherwise returns it byte-identical with its "
             "source address; after removal an attempt diverts nothing; for every interleaving of add/remove/recv/scan steps each "
             "scan's verdict is determined by exactly the registrations and removals before it; every event on the STUN channel "
-            "carries its parsed message, so the consumer (DiscoverWithDemux) never dereferences nil. Tied to the source by regenerated "
-            "constants and two differential streams (codec incl. the real encoder under seeded crypto/rand; the real conn incl. "
+            "carries its parsed message, so the consumer (DiscoverWithDemux) never dereferences nil. ServerPuncher as a step system "
+            "over any number of concurrent Respond calls: for every schedule and outcome a returned call has removed what it "
+            "registered and the conn holds nothing on its behalf (no stale diversion once all calls returned), a duplicate id is "
+            "refused without touching the conn, the registry entry of an id is always its holder's, and every ack answers a hello "
+            "that decoded under a registered attempt, to that packet's source. Tied to the source by regenerated "
+            "constants and three differential streams (the real ServerPuncher driven through generated histories; codec incl. the real encoder under seeded crypto/rand; the real conn incl. "
             "concurrent add/remove while reading).",
     "note": "Trusted: Lean kernel (+leanchecker), axioms propext/Quot.sound/Classical.choice at most; the Go harness and hydrv driver; "
             "pion/stun as an oracle; atomicity of the lock regions (race-tested, not proved); SHA-256 as a PRF for the cross-key clause. "
